@@ -18,6 +18,9 @@ def tree_classes():
     c.append(('root_pruned_forest', [gen.parse_op('((A,B)C,(D,E)F)G;'), 'prune 1']))
     c.append(('unnamed_leaves', [gen.parse_op('((,),(A,));')]))
     c.append(('duplicate_names', [gen.parse_op('((A:1,A:1):1,(B:1,A:1):1);')]))
+    c.append(('duplicate_last', [gen.parse_op('((A:1,B:1):1,(C:1,C:1):1);')]))
+    c.append(('duplicate_pair', [gen.parse_op('(A:1,A:2);')]))
+    c.append(('early_pruned', [gen.parse_op('((A:1,B:1)C:1,(D:1,E:1)F:1)G;'), 'prune 1']))
     c.append(('missing_lengths', [gen.parse_op('((A,B),(C,D));')]))
     c.append(('mixed_lengths', [gen.parse_op('((A:1,B):1,(C,D:2));')]))
     c.append(('polytomy', [gen.parse_op('(A:1,B:1,C:1,D:1,E:1);')]))
@@ -104,6 +107,9 @@ class Check(PropCheck):
             for mi, m in enumerate(ms):
                 # each mutator on a fresh copy, followed by a few queries and a second mutator
                 cases.append(Case('%s_m%d' % (label, mi), ops + m.split('\n') + ['dump', 'to_newick', 'n_leaves', 'partitions', 'dm', 'compress', 'dump'], {'cls': label})); k += 1
+                # the same mutator (successful or refused) followed by the functions that walk the whole arena or index scratch buffers by id
+                cases.append(Case('%s_n%d' % (label, mi), ops + m.split('\n') + ['dump', 'height', 'diameter', 'length', 'colless', 'sackin', 'cherries', 'dmr', 'layout',
+                                  'get_leaves', 'get_leaf_names', 'to_nexus', 'ladderize', 'dump', 'height', 'size', 'resolve 3', 'dump', 'diameter', 'dm'], {'cls': label})); k += 1
         # pairs of trees for the comparison functions
         for la, oa in classes:
             for lb, ob in classes:
